@@ -12,6 +12,7 @@
    Pass A runs with the relaxations of the listed known findings switched on: whatever is
    rejected there is a violation.  Pass B switches one relaxation off at a time on the
    cases pass A accepted: a rejection means that known finding is present."""
+import concurrent.futures as cf
 import json
 import os
 
@@ -65,7 +66,9 @@ def regroup(src, dst, chunk=150):
                 continue
             e = json.loads(line)
             key = batch_key(e) if e.get('op') == 'case' else 'panic'
-            groups.setdefault(key, []).append(line)
+            # a label that lets the runner's report tell kinds of rejected events apart (not read by the spec)
+            e['msg'] = '%s/%s' % (key or 'plain', e['carrier'] if e['carrier'] in HEAD + ['PushBlobChunkedResume'] else 'body carrier')
+            groups.setdefault(key, []).append(json.dumps(e, separators=(',', ':')))
     with open(dst, 'w') as f:
         f.write(hdr + '\n')
         for key in sorted(groups):
@@ -111,12 +114,15 @@ def judge(ctx, traces, label):
             continue
         p = os.path.join(d, 'B-' + os.path.basename(t))
         vlib.write_trace(p, hdr, keep)
-        for k in known:
-            if k['id'] in [x['id'] for x in ctx.known]:
-                continue
+        todo = [k for k in known if k['id'] not in [x['id'] for x in ctx.known]]
+
+        def without(k):
             consts = dict(relax)
             consts[k['relaxation']] = False
-            r = vlib.validate_trace(ctx, 'OciErrorTrace', 'OciErrorTrace.cfg', p, consts=consts)
+            return vlib.validate_trace(ctx, 'OciErrorTrace', 'OciErrorTrace.cfg', p, consts=consts)
+        with cf.ThreadPoolExecutor(max_workers=4) as ex:
+            res = list(ex.map(without, todo))
+        for k, r in zip(todo, res):
             if not r['accepted']:
                 ctx.known.append(k)
                 ctx.notes.append('%s first needed at: %s' % (k['id'], open(p).read().splitlines()[r['line'] - 1][:400]))
@@ -155,14 +161,14 @@ def run(ctx):
         for c in lst:
             cases.append(dict(id=len(cases), carrier=c, hops=HOPS, err=g['err']))
     cd = ctx.sub('cases')
-    cf = os.path.join(cd, 'cases.jsonl')
-    with open(cf, 'w') as f:
+    cfile = os.path.join(cd, 'cases.jsonl')
+    with open(cfile, 'w') as f:
         for c in cases:
             f.write(json.dumps(c) + '\n')
     vh = vlib.build_harness(ctx)
     td = ctx.sub('traces')
     raw = os.path.join(td, 'raw-tlc.ndjson')
-    vlib.run_harness(ctx, vh, ['errors', '-cases', cf, '-out', raw])
+    vlib.run_harness(ctx, vh, ['errors', '-cases', cfile, '-out', raw])
     traces = [os.path.join(td, 'tlc.ndjson')]
     groups = regroup(raw, traces[0])
     ctx.log('%d TLC-exported cases executed (%d trees); batches %s' % (len(cases), nb, groups))
